@@ -56,6 +56,7 @@ var c08EDNSSet = []c08EDNS{
 	{Name: "udp65535+pad+ka", Present: true, UDPSize: 65535, Padding: true, KeepAlive: true},
 	{Name: "udp65535+pad", Present: true, UDPSize: 65535, Padding: true},
 	{Name: "udp1232+v1", Present: true, UDPSize: 1232, Version: 1},
+	{Name: "udp512+do", Present: true, UDPSize: 512, DO: true},
 }
 
 const c08QName = "host.example.org."
@@ -966,8 +967,152 @@ func TestVerifC08(t *testing.T) {
 		return c08Oracle(r, p.c08Transport, c, e, h, 0, obs)
 	})
 
+	// Part 4: several queries on ONE TCP / DoT connection, served by the real
+	// connection loop.  Every response is judged by the same oracle for the
+	// query it answers: the statement's "returned only to a client that sent
+	// it" is read per query (as the code's own comment and tests read it), so
+	// nothing of an earlier query of the connection may show in a later
+	// response.
+	histLen := vrt.Pick(r, 3, 4)
+	r.Bound("tcp_conn_history_max_queries", histLen)
+	r.Bound("tcp_conn_history_alphabet", len(c08HistAlphabet))
+	vrt.Part(r, "tcp-conn-history", func(emit func(c08HistCase)) {
+		vrt.Sequences(len(c08HistAlphabet), 1, histLen, func(seq []int) {
+			for _, path := range []string{"tcp", "dot"} {
+				emit(c08HistCase{Path: path, Seq: append([]int(nil), seq...), Names: c08HistNames(seq)})
+			}
+		})
+	}, func(c c08HistCase) []vrt.Finding {
+		return c08RunHist(r, rig, c)
+	})
+
 	r.Finish()
 	os.Exit(0)
+}
+
+// c08HistSym is one query of a connection history: the client's EDNS setting
+// and the handler's answer to it.
+type c08HistSym struct {
+	EDNS  string
+	Shape int
+	Size  int
+}
+
+// c08HistAlphabet is the alphabet of part tcp-conn-history: 6 EDNS settings x
+// {small answer without OPT, answer with the handler's own OPT}.
+var c08HistAlphabet = func() (a []c08HistSym) {
+	for _, e := range []string{"absent", "udp1232", "udp1232+ka", "udp1232+pad", "udp512+pad+ka", "udp512+do"} {
+		a = append(a, c08HistSym{EDNS: e, Shape: 0, Size: 300}, c08HistSym{EDNS: e, Shape: 3, Size: 500})
+	}
+
+	return a
+}()
+
+// c08HistCase is one execution of part tcp-conn-history.
+type c08HistCase struct {
+	Path  string   `json:"path"`
+	Seq   []int    `json:"seq"`
+	Names []string `json:"names"`
+}
+
+func c08HistNames(seq []int) (names []string) {
+	for _, i := range seq {
+		sym := c08HistAlphabet[i]
+		names = append(names, sym.EDNS+"/"+c08Shapes[sym.Shape].Name)
+	}
+
+	return names
+}
+
+func c08EDNSByName(name string) (idx int, e c08EDNS) {
+	for i, e := range c08EDNSSet {
+		if e.Name == name {
+			return i, e
+		}
+	}
+	vrt.Fatalf("c08: no EDNS setting %q", name)
+
+	return 0, c08EDNS{}
+}
+
+func c08RunHist(r *vrt.Run, rig *c08Rig, c c08HistCase) (fs []vrt.Finding) {
+	p, ok := c08PathByName[c.Path]
+	if !ok || (c.Path != "tcp" && c.Path != "dot") {
+		vrt.Fatalf("c08: bad history path %q", c.Path)
+	}
+	s := rig.plain
+	if c.Path == "dot" {
+		s = rig.dot
+	}
+	var queries [][]byte
+	var ednss []c08EDNS
+	var ednsIdx []int
+	var hs []c08Built
+	var seq []*dns.Msg
+	for i, si := range c.Seq {
+		if si < 0 || si >= len(c08HistAlphabet) {
+			vrt.Fatalf("c08: bad history symbol %d", si)
+		}
+		sym := c08HistAlphabet[si]
+		idx, e := c08EDNSByName(sym.EDNS)
+		req := c08NewReq(e)
+		req.Id = uint16(0x1000 + i)
+		b, err := req.Pack()
+		if err != nil {
+			vrt.Fatalf("c08: packing request: %v", err)
+		}
+		built := c08BuildResp(sym.Shape, sym.Size)
+		queries, ednss, ednsIdx, hs = append(queries, b), append(ednss, e), append(ednsIdx, idx), append(hs, built)
+		seq = append(seq, c08Clone(built.msg))
+	}
+	rig.handler.mode, rig.handler.seq = "seq", seq
+	defer func() { rig.handler.mode, rig.handler.seq = "write", nil }()
+	rig.metrics.panicked = ""
+	c08SeedRand(1)
+	written, _ := c08ServeTCPConn(s, queries)
+	r.Trans(len(queries))
+
+	// Split what was written into frames; the responses come in the order of
+	// the queries, because each query is sent after the previous response.
+	var frames [][]byte
+	rest := written
+	for len(rest) >= 2 {
+		l := int(rest[0])<<8 | int(rest[1])
+		if len(rest) < 2+l {
+			break
+		}
+		frames = append(frames, rest[2:2+l])
+		rest = rest[2+l:]
+	}
+	for i := range c.Seq {
+		cc := c08Case{
+			Path: c.Path, Shape: c08HistAlphabet[c.Seq[i]].Shape, Size: hs[i].size, EDNS: ednsIdx[i], Cfg: dns.MaxMsgSize, Pad: 1,
+			ShapeName: fmt.Sprintf("%s [query %d of %d on one connection: %v]", c08Shapes[c08HistAlphabet[c.Seq[i]].Shape].Name, i+1, len(c.Seq), c.Names),
+			EDNSName:  ednss[i].Name,
+		}
+		obs := c08Obs{Why: "conn-closed", Panicked: rig.metrics.panicked}
+		if i < len(frames) {
+			obs = c08Obs{Sent: true, Wire: frames[i], Panicked: rig.metrics.panicked}
+			if out := (&dns.Msg{}); out.Unpack(frames[i]) == nil && out.Id != uint16(0x1000+i) {
+				// Not a clause of C08 (C01 judges matching); the responses
+				// are judged in the order they were written.
+				r.Count("hint:tcp-conn-response-id-differs", 1)
+			}
+		}
+		for _, f := range c08Oracle(r, p.c08Transport, cc, ednss[i], hs[i].msg, hs[i].size, obs) {
+			if i > 0 && f.Key == "keepalive/client-did-not-send" {
+				// The same clause, but caused by the history of the
+				// connection: a signature of its own.
+				f.Key = "tcp-conn/keepalive-without-option-in-this-query"
+			}
+			fs = append(fs, f)
+		}
+	}
+	if len(rest) > 0 || len(frames) > len(c.Seq) {
+		r.Count("hint:tcp-conn-extra-bytes", 1)
+	}
+
+	return fs
 }
 
 // c08Behaviours are the situations of part server-made.
